@@ -49,6 +49,11 @@ type Ledger struct {
 	hm      sync.Mutex
 	Log     []AddRec
 	logf    func(string, ...any)
+	// tid (scheduler runs only) identifies the calling logical thread; seen
+	// keeps, per thread, the heights Height() served it since the last reset,
+	// so that the harness knows which height each Put call observed.
+	tid  func() int
+	seen map[int][]uint32
 }
 
 var errBadIndex = errors.New("invalid block index")
@@ -59,7 +64,28 @@ func NewLedger(h0 uint32) *Ledger {
 	return l
 }
 
-func (l *Ledger) Height() uint32 { return l.height.Load() }
+func (l *Ledger) Height() uint32 {
+	v := l.height.Load()
+	if l.tid != nil {
+		l.hm.Lock()
+		if l.seen == nil {
+			l.seen = map[int][]uint32{}
+		}
+		t := l.tid()
+		l.seen[t] = append(l.seen[t], v)
+		l.hm.Unlock()
+	}
+	return v
+}
+
+// takeSeen returns and clears the heights served to thread t.
+func (l *Ledger) takeSeen(t int) []uint32 {
+	l.hm.Lock()
+	defer l.hm.Unlock()
+	v := l.seen[t]
+	delete(l.seen, t)
+	return v
+}
 
 func (l *Ledger) add(caller string, b *Blk) error {
 	l.addLock.Lock()
@@ -132,20 +158,23 @@ type Outcome struct {
 }
 
 type harness struct {
-	sc      *Scenario
-	r       *sched.Run // nil when free-running
-	L       *Ledger
-	q       *bqueue.Queue[*Blk]
-	hm      sync.Mutex
-	relay   []*Blk
-	lens    []int
-	lq      []string
-	fails   []sched.Fail
-	notes   []sched.Fail
-	offered map[uint32]bool
-	thr     map[string][]string
-	wg      sync.WaitGroup
-	runDone chan struct{}
+	sc       *Scenario
+	r        *sched.Run // nil when free-running
+	L        *Ledger
+	q        *bqueue.Queue[*Blk]
+	hm       sync.Mutex
+	relay    []*Blk
+	lens     []int
+	lq       []string
+	fails    []sched.Fail
+	notes    []sched.Fail
+	offered  map[uint32]bool
+	seq      int
+	accepted []offerRec // Put calls that returned and, by the height they observed, had to take the element
+	consDone []offerRec // successful consensus adds (seq taken after the call returned)
+	thr      map[string][]string
+	wg       sync.WaitGroup
+	runDone  chan struct{}
 }
 
 func (h *harness) logf(format string, a ...any) {
@@ -216,15 +245,95 @@ func (h *harness) drain(target uint32) {
 	}
 }
 
+// offerRec: an index given to the node, with its position in the harness's
+// global order of events.
+type offerRec struct {
+	idx uint32
+	seq int
+}
+
+func (h *harness) nextSeq() int {
+	h.hm.Lock()
+	defer h.hm.Unlock()
+	h.seq++
+	return h.seq
+}
+
 func (h *harness) put(thread string, b *Blk) {
 	h.hm.Lock()
 	h.offered[b.Idx] = true
 	h.hm.Unlock()
+	start := h.nextSeq()
+	tid := -1
+	if h.r != nil {
+		tid = h.r.ThreadID()
+		h.L.takeSeen(tid)
+	}
 	h.logf("%s: Put(%v) ...", thread, b)
 	err := h.q.Put(b)
 	h.logf("%s: Put(%v) returned", thread, b)
 	if err != nil {
 		h.fail("put-error:"+h.sc.FullName(), fmt.Sprintf("Put(%v) returned %v", b, err))
+	}
+	if h.r != nil && !h.sc.Discard {
+		// Which height did this Put call observe? (It is racy from outside,
+		// so it is taken from what the ledger served to this thread.) The
+		// first one decides "stale", in NonBlocking mode also "beyond range";
+		// a Blocking Put that returned has waited until the element fitted.
+		if seen := h.L.takeSeen(tid); len(seen) > 0 {
+			first := seen[0]
+			acc := b.Idx > first
+			if h.sc.Mode == bqueue.NonBlocking && b.Idx > first+uint32(h.sc.Cap) {
+				acc = false
+			}
+			if acc {
+				h.hm.Lock()
+				h.accepted = append(h.accepted, offerRec{b.Idx, start})
+				h.hm.Unlock()
+				h.logf("%s: Put(%v) observed height %d: accepted in range", thread, b, first)
+			}
+		}
+	}
+}
+
+// checkAccepted is evaluated at the quiescence of the concurrent phase, before
+// anything is re-offered: every element a Put had to take (by the height that
+// very call observed) must have been applied once all its predecessors were
+// given too. Consensus adds only count if they had completed before the last
+// accepted Put call started: a block added directly to the chain does not wake
+// the queue (only a Put does), so a held successor of a later consensus block
+// legitimately waits for the next Put.
+func (h *harness) checkAccepted(height uint32) {
+	h.hm.Lock()
+	defer h.hm.Unlock()
+	if len(h.accepted) == 0 {
+		return
+	}
+	lastStart := 0
+	for _, a := range h.accepted {
+		if a.seq > lastStart {
+			lastStart = a.seq
+		}
+	}
+	given := map[uint32]bool{}
+	for _, a := range h.accepted {
+		given[a.idx] = true
+	}
+	for _, c := range h.consDone {
+		if c.seq < lastStart {
+			given[c.idx] = true
+		}
+	}
+	want := h.sc.H0
+	for given[want+1] {
+		want++
+	}
+	if height < want {
+		// fail() takes hm itself
+		msg := fmt.Sprintf("at quiescence of the concurrent phase (before any re-offer) the height is %d, but every index up to %d was added by consensus or accepted in range by a Put call (accepted %v, consensus before the last accepted Put %v): an accepted element was dropped from the queue", height, want, h.accepted, h.consDone)
+		h.hm.Unlock()
+		h.fail("accepted-offer-lost:"+h.sc.FullName(), msg)
+		h.hm.Lock()
 	}
 }
 
@@ -262,6 +371,7 @@ func Run(sc *Scenario, r *sched.Run) *Outcome {
 	h.L = NewLedger(sc.H0)
 	if r != nil {
 		h.L.logf = r.Logf
+		h.L.tid = r.ThreadID
 	}
 	relayF := func(b *Blk) {
 		h.logf("relay(%v)", b)
@@ -393,6 +503,12 @@ func Run(sc *Scenario, r *sched.Run) *Outcome {
 			for k, off := range sc.Cons {
 				b := &Blk{Idx: sc.index(off), Tag: fmt.Sprintf("c.%d", k)}
 				err := h.L.ConsAdd(b)
+				if err == nil {
+					q := h.nextSeq()
+					h.hm.Lock()
+					h.consDone = append(h.consDone, offerRec{b.Idx, q})
+					h.hm.Unlock()
+				}
 				h.note("cons", fmt.Sprintf("add%d:%v", b.Idx, err == nil))
 			}
 		})
@@ -409,6 +525,9 @@ func Run(sc *Scenario, r *sched.Run) *Outcome {
 		r.SetHorizon(1000)
 	}
 	hMid = h.L.Height()
+	if r != nil && !sc.Discard {
+		h.checkAccepted(hMid)
+	}
 	if !sc.Discard {
 		var maxOff uint32
 		h.hm.Lock()
